@@ -92,3 +92,24 @@ def dump(obj, depth=0):
     if hasattr(obj, '_fields'):
         return [type(obj).__name__, [dump(x, depth + 1) for x in obj]]
     return [type(obj).__name__, repr(obj)]
+
+
+def isolated(fn, *args):
+    """fn(*args) computed in its OWN forked child of the calling process, so that whatever process-wide state the call
+    leaves behind (module-level caches, memos) cannot reach the caller or any later call.  Result must be picklable."""
+    import pickle
+    r, w = os.pipe()
+    pid = os.fork()
+    if pid == 0:
+        try:
+            os.close(r)
+            data = pickle.dumps(fn(*args))
+            with os.fdopen(w, 'wb') as f:
+                f.write(data)
+        finally:
+            os._exit(0)
+    os.close(w)
+    with os.fdopen(r, 'rb') as f:
+        data = f.read()
+    os.waitpid(pid, 0)
+    return pickle.loads(data)
